@@ -67,7 +67,7 @@ def _run_history(hist):
     if name == 'st':
       if cur['dut']:
         test_api.dut_id = 'DUT%d' % state['run']
-      if cur['overlap']:
+      if cur['overlap'] == 'start':
         try:
           ctx.test.execute()
           state['overlap'] = 'accepted'
@@ -102,6 +102,24 @@ def _run_history(hist):
                                res=build.result_kind(p.result), has_opts=p.options is not None,
                                s=p.start_time_millis, e=p.end_time_millis) for p in rec.phases])
       state['cbs'].append(snap)
+      if i == 1 and state['cur']['overlap'] == 'cb' and state['overlap'] is None:
+        # a second execute() while the first one is finalizing (its executor thread has ended)
+        # (from another thread, and never waited for longer than 20 s: an accepted
+        # second run shares the first one's executor slot and may never return)
+        import threading
+
+        def second():
+          try:
+            test.execute()
+            state['overlap'] = 'accepted'
+          except test_descriptor.InvalidTestStateError:
+            state['overlap'] = 'refused'
+          except Exception as e:  # pylint: disable=broad-except
+            state['overlap'] = 'raised %s' % type(e).__name__
+        state['overlap'] = 'accepted (the second execute() did not return)'
+        th = threading.Thread(target=second, name='second-execute', daemon=True)
+        th.start()
+        th.join(20)
       if i in state['cur']['raises']:
         raise CbError('callback %d raises' % i)
     return cb
@@ -154,7 +172,7 @@ def _run_history(hist):
           bad.append(('phase record without outcome/result/options handed to a callback', det))
         if not p['s'] or not p['e'] or p['s'] > p['e'] or p['e'] > c['end']:
           bad.append(('phase record times not within start <= end <= test end', det))
-    if call['overlap']:
+    if call['overlap'] != 'none':
       exp = 'refused' if call['refused'] else None
       if state['overlap'] != exp:
         bad.append(('overlapping execute() was %s, model says %s' % (state['overlap'], exp), det))
@@ -180,7 +198,7 @@ def _work(args):
     use_sched = any(c['path'] in NEEDS_SCHED for c in h)
     bad = run_history(h, use_sched)
     out['n'] += 1
-    if any(c['path'] != 'pass' or c['raises'] or c['overlap'] for c in h):
+    if any(c['path'] != 'pass' or c['raises'] or c['overlap'] != 'none' for c in h):
       out['nontrivial'] += 1
     for sig, det in bad[:3]:
       if len(out['bad']) < 10:
@@ -235,6 +253,44 @@ def abort_sweep(chk):
   chk.log('%d schedules with a single abort judged on the record clauses' % n)
 
 
+def real_sigint(chk):
+  """real threads and a real SIGINT (no scheduler, own process): the signal
+  arrives while execute() is blocked waiting for the executor thread - the
+  "(or re-raises KeyboardInterrupt)" exit of the statement on the interpreter
+  the repository runs on"""
+  import os
+  import subprocess
+  script = os.path.join(os.path.dirname(os.path.abspath(__file__)), 'scripts', 'sigint_real.py')
+  env = dict(os.environ, PYTHONPATH=os.environ.get('VERIF_REPO', '/repo'))
+  n = 0
+  for where in ('teardown', 'main'):
+    for rep in range(2 if chk.tier == 'quick' else 6):
+      p = subprocess.run([sys.executable, script, where], env=env, stdout=subprocess.PIPE, stderr=subprocess.DEVNULL,
+                         text=True, timeout=120)
+      line = next((l for l in p.stdout.splitlines() if l.startswith('RESULT ')), None)
+      if line is None:
+        raise RuntimeError('harness: sigint_real.py %s printed no result (rc=%s)' % (where, p.returncode))
+      r = json.loads(line[7:])
+      n += 1
+      det = dict(scenario='real SIGINT', where=where, observed=r)
+      what = 'real SIGINT while execute() waits for the executor (a %s phase is running): ' % where
+      if r['ret'] != 'KeyboardInterrupt':
+        chk.violation(what + 'execute() does not re-raise KeyboardInterrupt', det)
+      if len(r['callbacks']) != 1:
+        chk.violation(what + 'output callback called %d times' % len(r['callbacks']), det)
+      for c in r['callbacks']:
+        if c['oc'] is None or not c['end'] or any(p[1] is None or not p[2] for p in c['phases']):
+          chk.violation(what + 'the record handed to the callbacks is not final', det)
+        elif c['oc'] != 'ABORTED':
+          chk.violation(what + 'outcome is %s' % c['oc'], det)
+      if r['state_left'] or r['registered']:
+        chk.violation(what + 'the Test keeps its executor / SIGINT registration', det)
+  chk.traces += n
+  chk.nontrivial += n
+  chk.tlc_runs.append(dict(name='real SIGINT during the wait for the executor thread', runs=n))
+  chk.log('%d runs with a real SIGINT' % n)
+
+
 def main(chk):
   res = tlc.must_pass(tlc.run('Lifecycle', 'Lifecycle_mc.cfg', coverage=True), 'Lifecycle design check')
   cov = res.coverage()
@@ -265,8 +321,9 @@ def main(chk):
           chk.sample(o['sample'])
       chk.log('%d histories of %d execute() calls replayed' % (n, r['calls']))
   abort_sweep(chk)
+  real_sigint(chk)
   # binding self-test: a corrupted expectation must be reported
-  h = [dict(path='pass', raises=set(), overlap=False, dut=True, oc='PASS', ret='False',
+  h = [dict(path='pass', raises=set(), overlap='none', dut=True, oc='PASS', ret='False',
             cbs=[[1, 'ok'], [2, 'ok'], [3, 'ok']], refused=0)]
   if not run_history(h, False):
     raise tlc.TLCError('selftest: corrupted expectation not detected')
@@ -283,6 +340,14 @@ def main(chk):
 def replay(path):
   with open(path) as fh:
     sc = json.load(fh)['scenario']
+  if sc.get('scenario') == 'real SIGINT':
+    chk = common.Check('C09', 'quick', 0)
+    real_sigint(chk)
+    for sig, det in chk.violations:
+      print('VIOLATION property=C09 replay=%s\n  what: %s' % (path, sig))
+      return 1
+    print('replay: real SIGINT runs are complete and final')
+    return 0
   if 'history' not in sc:
     import random
     from checks import c04
